@@ -159,3 +159,18 @@ _reg(
     "DESIGN.md 3/C15",
     "Exploration over return/export modes x parameter sizes on both sides of the spill threshold x sequences of exports to the same path.",
 )
+
+_reg(
+    "C18",
+    "exploration",
+    "cases = 9 programs (float, int, bool, complex, multiple outputs, NCHW flags, double precision) x 28 model perturbations (epsilon on one / "
+    "all elements at 0.1x, 2x, 10x the allowed deviation; bool flip; int+1; int returned as float+0.4; int32 returned as int64+2**32; NaN/inf; "
+    "same-size reshape; extra unit axis; transpose of a square output; dropped / extra / swapped outputs; dtype-only changes; swapped re/im; "
+    "scale, sign flip, zeroed element) x tolerance settings. Every perturbed model is executed directly and the harness measures itself "
+    "whether it deviates from fn beyond (rtol, atol); the monitored implication is allclose==True => no deviation. evaluations = allclose calls "
+    "observed; non-trivial = the perturbed model really deviates by the harness's own measurement; distinct = (program, perturbation, tolerance).",
+    (150, 80, 300, 150),
+    "oracle-of-the-oracle: allclose verdict vs an independent ORT-vs-fn measurement on systematically perturbed exported models",
+    "DESIGN.md 3/C18",
+    "Exploration over single-element / shape / count / dtype-class deviations; false mismatches on equivalent models are observations only (the property states soundness).",
+)
